@@ -506,5 +506,36 @@ def r12_9(ctx):
     return r
 
 
+def r12_10(ctx):
+    """RFC 6525 / RFC 4960 3.2.1: a parameter's Length counts header and value, NOT the padding. The value handed
+    to the parameter handlers must therefore be exactly Length-4 bytes: the Outgoing SSN Reset handler reads
+    stream ids until the value is exhausted, so pad bytes passed along become a phantom stream 0 whose sequence
+    state is reset although it was never named."""
+    r = RuleResult("R12.10", "K6/dataflow", "RE-CONFIG parameter values exclude padding (value = Length - 4 bytes)")
+    fn = "transports::sctp::SctpInner::handle_reconfig::{closure#0}"
+    b = ctx.body(fn)
+    r.scope.append(fn)
+    n = 0
+    for bi, t, p in b.calls():
+        if not p or not p.endswith(("handle_reconfig_outgoing_ssn_reset", "handle_reconfig_response")):
+            continue
+        n += 1
+        arg = b.term_operand(t["a"][1])
+        ok = False
+        if arg[0] == "call" and arg[1].endswith("::split_to") and len(arg[2]) == 2:
+            ln = arg[2][1]
+            ok = ln[0] == "bin" and ln[1] in ("Sub", "SubUnchecked") and mir.int_value(ln[3]) == 4 and \
+                ((ln[2][0] == "cast" and ln[2][1][0] == "call" and ln[2][1][1].endswith("Buf::get_u16")) or
+                 (ln[2][0] == "call" and ln[2][1].endswith("Buf::get_u16")))
+        if ok:
+            r.ok({"site": b.where(bi), "value": "buf.split_to(param_length - 4), param_length as read from the wire"})
+        else:
+            r.violate(fn, "tlv:value", b.where(bi),
+                      "the parameter value handed to %s is %s, not exactly the wire Length minus the 4-byte header: padding (or "
+                      "neighbouring bytes) is interpreted as stream identifiers" % (p.split("::")[-1], mir.show(arg, 90)))
+    r.need("RE-CONFIG parameter handler calls", n, 2)
+    return r
+
+
 def run(ctx):
-    return [r12_1(ctx), r12_2(ctx), r12_2b(ctx), r12_3(ctx), r12_4(ctx), r12_5(ctx), r12_6(ctx), r12_7(ctx), r12_8(ctx), r12_9(ctx)]
+    return [r12_1(ctx), r12_2(ctx), r12_2b(ctx), r12_3(ctx), r12_4(ctx), r12_5(ctx), r12_6(ctx), r12_7(ctx), r12_8(ctx), r12_9(ctx), r12_10(ctx)]
